@@ -67,6 +67,19 @@ def witness_programs(ctx):
     return out
 
 
+def copy_cover_programs(ctx):
+    """Breadth-first cover of the CopyObject situations the translation must keep apart (S3ClientGen!CopySit):
+    {tagging, metadata} directive x source with/without x replacement empty/non-empty - shortest program each."""
+    r = ctx.tlc("S3ClientGen", "S3Client.Cover.cfg", workers=1, timeout=600, count_mc=False)
+    ps = [p for p in r.printed if isinstance(p, dict) and "keys" in p]
+    keys = set(k for p in ps for k in p["keys"])
+    ctx.log("copy-directive cover: %d situations, %d programs, %d states, %.1fs" % (len(keys), len(ps), r.distinct, r.wall))
+    if r.outcome != "ok" or len(keys) < 16:
+        raise vlib.Infra("copy-directive cover incomplete: %d of 16 situations (%s)\n%s" % (len(keys), r.outcome, r.output[-1500:]))
+    ctx.extra["copy_directive_cover"] = {"situations": sorted(keys), "programs": len(ps)}
+    return [p["calls"] for p in ps]
+
+
 def _corrupt_client_ctype(prog):
     """binding self-test: the client reports another content type for a current object than the endpoint holds."""
     for ln in prog:
@@ -109,6 +122,7 @@ def run(ctx):
     depth = ctx.pick(25, 40)
     drv = ctx.gobuild("s3client")
     wit = witness_programs(ctx)
+    cover = copy_cover_programs(ctx)
     opcount = {}
     subst = {"Deviations": rf.deviations(ctx, PROPS)}
     before = dict(ctx.findings_seen)
@@ -117,6 +131,7 @@ def run(ctx):
         allp = [{"id": i + 1, "calls": p} for i, p in enumerate(progs)]
         if si == 0:
             allp += [{"id": 9000 + i, "calls": p} for i, (t, p) in enumerate(wit)]
+            allp += [{"id": 8000 + i, "calls": p} for i, p in enumerate(cover)]
         pf = ctx.path("programs-%s.ndjson" % stack)
         vlib.write_ndjson(pf, allp)
         tf = ctx.path("trace-%s.ndjson" % stack)
@@ -140,7 +155,9 @@ def run(ctx):
     if missing:
         raise vlib.Infra("operations never generated: %s" % missing)
     ctx.assumptions += [
-        "programs are random walks of the model (TLC -simulate) plus TLC's shortest witness program per open deviation",
+        "programs are random walks of the model (TLC -simulate) plus TLC's shortest witness program per open deviation "
+        "plus a breadth-first cover of the CopyObject directive situations (directive x source has tags/metadata x "
+        "replacement empty/non-empty)",
         "both runs start from fresh, identically configured stacks; the endpoint storage is additionally read directly",
         "a rejected program is reported and dropped; the remaining programs are still validated",
     ]
